@@ -52,17 +52,26 @@ FORBIDDEN = re.compile(
 
 
 def sh(cmd, timeout=600, cwd=None, env=None, input=None):
-    """Run a shell command, return (rc, stdout+stderr)."""
+    """Run a shell command in its own process group, return (rc, stdout+stderr).
+    On timeout the whole group is killed (so no orphaned extracted programs survive)."""
+    import signal
+    p = subprocess.Popen(cmd, shell=isinstance(cmd, str), cwd=cwd, env=env,
+                         stdin=subprocess.PIPE if input is not None else None,
+                         stdout=subprocess.PIPE, stderr=subprocess.STDOUT, text=True,
+                         start_new_session=True)
     try:
-        p = subprocess.run(cmd, shell=isinstance(cmd, str), cwd=cwd, env=env, input=input,
-                           stdout=subprocess.PIPE, stderr=subprocess.STDOUT,
-                           timeout=timeout, text=True)
-        return p.returncode, p.stdout
-    except subprocess.TimeoutExpired as e:
-        out = e.stdout or ""
-        if isinstance(out, bytes):
-            out = out.decode("utf8", "replace")
-        return 124, out + "\n[timeout after %ss]" % timeout
+        out, _ = p.communicate(input=input, timeout=timeout)
+        return p.returncode, out
+    except subprocess.TimeoutExpired:
+        try:
+            os.killpg(p.pid, signal.SIGKILL)
+        except OSError:
+            pass
+        try:
+            out, _ = p.communicate(timeout=10)
+        except Exception:
+            out = ""
+        return 124, (out or "") + "\n[timeout after %ss]" % timeout
 
 
 def strip_coq_comments(text):
